@@ -779,6 +779,21 @@ def _refine(f, node, env, left):
         c = f.strip(f.nodes[a]["cond"])
         n = f.nodes[c]
         orr = f.oriented(c, lambda x: ts.assign_parts(f, x) is not None)
+        if not orr and n["k"] == "BinaryOperator" and n.get("op") in ("<", ">"):
+            # the same fact without the assignment: `if (E > 0)` (the shift count named by a const local, or written out)
+            a_, b_ = (f.strip(y, casts=False) for y in n["ch"])
+            Enode = b_ if (n["op"] == "<" and f.nodes[f.strip(a_)].get("cv") == 0) else a_ if (n["op"] == ">" and f.nodes[f.strip(b_)].get("cv") == 0) else None
+            if Enode is not None:
+                E = core.poly(f, Enode)
+                if E is not None and not any(len(m) > 1 for m in E.t):
+                    cl = E.t.get((left,), 0)
+                    rest = E - Poly({(left,): cl})
+                    lo, hi = env.get(left, (None, None))
+                    if cl == -1:
+                        env[left] = (lo, rest - Poly.const(1))
+                    elif cl == 1:
+                        env[left] = (Poly.const(1) - rest, hi)
+            continue
         if orr and orr[1] == ">" and f.nodes[orr[2]].get("cv") == 0:
             inner = orr[0]
             ap = ts.assign_parts(f, inner)
